@@ -602,7 +602,46 @@ def no_rebreak_lemma(repo):
     return {'results': res, 'sha': {}}
 
 
+def cli_passthrough_lemma(repo):
+    """C15 frame: the command-line tool and mistletoe.markdown() hand their input on untouched - the open
+    text file (UTF-8, universal newlines) goes to markdown() as it is, markdown() passes its iterable to
+    Document as it is, and the output of each file is written as the encoded rendering, nothing else."""
+    res = []
+    try:
+        cli = _module_tree(repo, 'mistletoe/cli.py')
+        init = _module_tree(repo, 'mistletoe/__init__.py')
+    except OSError as e:
+        return {'results': [mk('frame:cli-passthrough', 'undecided', 0, ['C15'], detail=str(e), kind='resolve')]}
+    f = [n for n in cli.body if isinstance(n, ast.FunctionDef) and n.name == 'convert_file']
+    ok, why = False, 'convert_file not found'
+    if f:
+        withs = [n for n in ast.walk(f[0]) if isinstance(n, ast.With)]
+        why = 'convert_file no longer has the recognised form'
+        if len(withs) == 1 and len(withs[0].items) == 1:
+            it = withs[0].items[0]
+            opened = ast.unparse(it.context_expr).replace('"', "'")
+            var = it.optional_vars.id if isinstance(it.optional_vars, ast.Name) else None
+            body = [ast.unparse(x) for x in withs[0].body]
+            ok = (opened == "open(filename, 'r', encoding='utf-8')" and var is not None
+                  and body == ['rendered = mistletoe.markdown(%s, renderer)' % var, 'sys.stdout.buffer.write(rendered.encode())'])
+    res.append(mk('frame:cli-passthrough:convert_file', 'proved' if ok else 'undecided', 0, ['C15'], fn='cli.convert_file',
+                  text='convert_file opens the file as UTF-8 text and hands the file object itself to mistletoe.markdown; '
+                       'it writes exactly the encoded rendering', detail=None if ok else why))
+    g = [n for n in init.body if isinstance(n, ast.FunctionDef) and n.name == 'markdown']
+    ok2 = False
+    if g:
+        body = [x for x in g[0].body if not (isinstance(x, ast.Expr) and isinstance(x.value, ast.Constant))]
+        ok2 = (len(body) == 1 and isinstance(body[0], ast.With)
+               and [ast.unparse(x) for x in body[0].body] == ['return renderer.render(Document(iterable))']
+               and g[0].args.args[0].arg == 'iterable')
+    res.append(mk('frame:cli-passthrough:markdown', 'proved' if ok2 else 'undecided', 0, ['C15'], fn='mistletoe.markdown',
+                  text='markdown(iterable, renderer) renders Document(iterable) inside the renderer context and returns it',
+                  detail=None if ok2 else 'markdown() no longer has the recognised form'))
+    return {'results': res, 'sha': {}}
+
+
 LEMMAS = {
+    'frame:cli-passthrough': (cli_passthrough_lemma, ['C15']),
     'frame:no-rebreak': (no_rebreak_lemma, ['C10']),
     'classes:structure': (class_lemmas, ['C18', 'C01', 'C11', 'C16']),
     'state:globals': (state_lemmas, ['C11', 'C16']),
